@@ -1,1 +1,312 @@
-//! (harnesses for C17 not written yet)
+//! C17: mode objects do not leak chaining state via Debug output or dropped memory.
+//!
+//! Debug: two objects of the same type with independent symbolic key, IV, position and processed
+//! data are formatted into a fixed sink; the texts must be byte-identical (non-interference).
+//! Drop (feature zeroize): the object lives in a MaybeUninit, is driven through a symbolic
+//! history, dropped in place, and its storage is read back.  With a zero-sized cipher and a
+//! padding-free instantiation every byte must be 0 (for the buffered CFB types: every byte except
+//! the byte cursor `pos`, which both runs share, must be identical between two runs with
+//! independent IV/data and the block bytes must be 0).
+use crate::prelude::*;
+use core::fmt::Write;
+use core::mem::{size_of, MaybeUninit};
+
+fn fmt_debug<T: core::fmt::Debug>(t: &T) -> Sink {
+    let mut s = Sink::new();
+    let r = write!(s, "{:?}", t);
+    assert!(r.is_ok());
+    s
+}
+fn same_text(a: &Sink, b: &Sink) {
+    assert!(!a.overflow && !b.overflow, "sink too small");
+    assert!(a.n > 0, "empty Debug text");
+    assert!(a.n == b.n, "Debug text length depends on key / IV / position / data");
+    let mut i = 0;
+    while i < SINK {
+        assert!(a.buf[i] == b.buf[i], "Debug text depends on key / IV / position / data");
+        i += 1;
+    }
+}
+
+/// Block-mode objects: new from (key, iv) symbolic, one block processed, Debug compared.
+macro_rules! debug_block {
+    ($name:ident, $unw:expr, $ty:ty, $dir:ident, $ivbs:ty, $ivlen:expr, $mbs:ty, $mb:expr) => {
+        #[kani::proof]
+        #[kani::unwind($unw)]
+        pub fn $name() {
+            let k1: [u8; 2] = kani::any();
+            let k2: [u8; 2] = kani::any();
+            let iv1: [u8; $ivlen] = kani::any();
+            let iv2: [u8; $ivlen] = kani::any();
+            let mut d1: [u8; $mb] = kani::any();
+            let mut d2: [u8; 2 * $mb] = kani::any();
+            let mut m1 = <$ty>::new(&k1.into(), blk::<$ivbs>(&iv1));
+            let mut m2 = <$ty>::new(&k2.into(), blk::<$ivbs>(&iv2));
+            do_blocks!($dir, m1, blocks_mut::<$mbs>(&mut d1));
+            do_blocks!($dir, m2, blocks_mut::<$mbs>(&mut d2));
+            let (s1, s2) = (fmt_debug(&m1), fmt_debug(&m2));
+            same_text(&s1, &s2);
+            kani::cover!(true);
+        }
+    };
+}
+/// Byte-level objects (buffered CFB; stream wrappers in the kf_ variants).
+macro_rules! debug_bytes {
+    ($name:ident, $unw:expr, $ty:ty, $call:ident, $ivbs:ty, $ivlen:expr, $n1:expr, $n2:expr) => {
+        #[kani::proof]
+        #[kani::unwind($unw)]
+        pub fn $name() {
+            let k1: [u8; 2] = kani::any();
+            let k2: [u8; 2] = kani::any();
+            let iv1: [u8; $ivlen] = kani::any();
+            let iv2: [u8; $ivlen] = kani::any();
+            let mut d1: [u8; $n1] = kani::any();
+            let mut d2: [u8; $n2] = kani::any();
+            let mut m1 = <$ty>::new(&k1.into(), blk::<$ivbs>(&iv1));
+            let mut m2 = <$ty>::new(&k2.into(), blk::<$ivbs>(&iv2));
+            m1.$call(&mut d1);
+            m2.$call(&mut d2);
+            let (s1, s2) = (fmt_debug(&m1), fmt_debug(&m2));
+            same_text(&s1, &s2);
+            kani::cover!(true);
+        }
+    };
+}
+/// Seekable cores: symbolic block positions as well.
+macro_rules! debug_core {
+    ($name:ident, $unw:expr, $ty:ty, $ct:ty, $ivbs:ty, $ivlen:expr) => {
+        #[kani::proof]
+        #[kani::unwind($unw)]
+        pub fn $name() {
+            let k1: [u8; 2] = kani::any();
+            let k2: [u8; 2] = kani::any();
+            let iv1: [u8; $ivlen] = kani::any();
+            let iv2: [u8; $ivlen] = kani::any();
+            let mut m1 = <$ty>::new(&k1.into(), blk::<$ivbs>(&iv1));
+            let mut m2 = <$ty>::new(&k2.into(), blk::<$ivbs>(&iv2));
+            let p1: $ct = kani::any();
+            let p2: $ct = kani::any();
+            m1.set_block_pos(p1);
+            m2.set_block_pos(p2);
+            let mut b: [u8; $ivlen] = kani::any();
+            m2.write_keystream_block(blk_mut::<$ivbs>(&mut b));
+            let (s1, s2) = (fmt_debug(&m1), fmt_debug(&m2));
+            same_text(&s1, &s2);
+            kani::cover!(true);
+        }
+    };
+}
+
+/// Algorithm name text: no `self`, so only its well-formedness is checked.
+struct AlgName<T>(core::marker::PhantomData<T>);
+impl<T: cipher::AlgorithmName> core::fmt::Display for AlgName<T> {
+    fn fmt(&self, f: &mut core::fmt::Formatter<'_>) -> core::fmt::Result {
+        T::write_alg_name(f)
+    }
+}
+macro_rules! algname_case {
+    ($name:ident, $unw:expr, $ty:ty, $expect:expr) => {
+        #[kani::proof]
+        #[kani::unwind($unw)]
+        pub fn $name() {
+            let mut s = Sink::new();
+            assert!(write!(s, "{}", AlgName::<$ty>(core::marker::PhantomData)).is_ok());
+            assert!(s.is($expect), "algorithm name text");
+            kani::cover!(true);
+        }
+    };
+}
+
+// ---- drop images ------------------------------------------------------------------------------
+
+/// Run `$body` on an object placed in a MaybeUninit, drop it in place, return the storage bytes.
+macro_rules! drop_image {
+    ($ty:ty, $sz:expr, $init:expr, |$m:ident| $body:block) => {{
+        let mut slot: MaybeUninit<$ty> = MaybeUninit::new($init);
+        let mut img = [0u8; $sz];
+        unsafe {
+            {
+                let $m: &mut $ty = &mut *slot.as_mut_ptr();
+                $body
+            }
+            core::ptr::drop_in_place(slot.as_mut_ptr());
+            let p = slot.as_ptr() as *const u8;
+            let mut i = 0;
+            while i < $sz {
+                img[i] = *p.add(i);
+                i += 1;
+            }
+        }
+        img
+    }};
+}
+
+macro_rules! drop_block {
+    ($name:ident, $unw:expr, $ty:ty, $dir:ident, $ivbs:ty, $ivlen:expr, $mbs:ty, $mb:expr, $size:expr) => {
+        #[kani::proof]
+        #[kani::unwind($unw)]
+        pub fn $name() {
+            const SZ: usize = size_of::<$ty>();
+            assert!(SZ == $size, "instantiation is not padding-free as assumed");
+            let iv: [u8; $ivlen] = kani::any();
+            let mut d: [u8; $mb] = kani::any();
+            let img = drop_image!($ty, SZ, <$ty>::inner_iv_init(UfZ::new(), blk::<$ivbs>(&iv)), |m| {
+                do_blocks!($dir, m, blocks_mut::<$mbs>(&mut d));
+            });
+            let mut i = 0;
+            while i < SZ {
+                assert!(img[i] == 0, "chaining state left in memory after drop");
+                i += 1;
+            }
+            kani::cover!(true);
+        }
+    };
+}
+macro_rules! drop_core {
+    ($name:ident, $unw:expr, $ty:ty, $ct:ty, $ivbs:ty, $ivlen:expr, $size:expr) => {
+        #[kani::proof]
+        #[kani::unwind($unw)]
+        pub fn $name() {
+            const SZ: usize = size_of::<$ty>();
+            assert!(SZ == $size, "instantiation is not padding-free as assumed");
+            let iv: [u8; $ivlen] = kani::any();
+            let pos: $ct = kani::any();
+            let mut b: [u8; $ivlen] = kani::any();
+            let img = drop_image!($ty, SZ, <$ty>::inner_iv_init(UfZ::new(), blk::<$ivbs>(&iv)), |m| {
+                m.set_block_pos(pos);
+                m.write_keystream_block(blk_mut::<$ivbs>(&mut b));
+            });
+            let mut i = 0;
+            while i < SZ {
+                assert!(img[i] == 0, "nonce / counter left in memory after drop");
+                i += 1;
+            }
+            kani::cover!(true);
+        }
+    };
+}
+/// byte-level wrappers (their buffer is wiped by the cipher crate, the core by /repo)
+macro_rules! drop_wrapper {
+    ($name:ident, $unw:expr, $core:ty, $ivbs:ty, $ivlen:expr, $n:expr, $size:expr) => {
+        #[kani::proof]
+        #[kani::unwind($unw)]
+        pub fn $name() {
+            type W = StreamCipherCoreWrapper<$core>;
+            const SZ: usize = size_of::<W>();
+            assert!(SZ == $size, "instantiation is not padding-free as assumed");
+            let iv: [u8; $ivlen] = kani::any();
+            let mut d: [u8; $n] = kani::any();
+            let img = drop_image!(W, SZ, StreamCipherCoreWrapper::from_core(<$core>::inner_iv_init(UfZ::new(), blk::<$ivbs>(&iv))), |m| {
+                m.apply_keystream(&mut d);
+            });
+            let mut i = 0;
+            while i < SZ {
+                assert!(img[i] == 0, "keystream / counter left in memory after drop");
+                i += 1;
+            }
+            kani::cover!(true);
+        }
+    };
+}
+/// buffered CFB: cursor `pos` (not secret) stays; two runs with independent IV / data and the same
+/// number of bytes must leave identical images, of which at least B bytes... exactly: the image
+/// may differ from zero only in the 8 bytes of `pos`.
+macro_rules! drop_buf {
+    ($name:ident, $unw:expr, $ty:ty, $call:ident, $ivbs:ty, $b:expr, $n:expr) => {
+        #[kani::proof]
+        #[kani::unwind($unw)]
+        pub fn $name() {
+            const SZ: usize = size_of::<$ty>();
+            assert!(SZ == $b + 8, "instantiation is not padding-free as assumed");
+            let iv1: [u8; $b] = kani::any();
+            let iv2: [u8; $b] = kani::any();
+            let mut d1: [u8; $n] = kani::any();
+            let mut d2: [u8; $n] = kani::any();
+            let img1 = drop_image!($ty, SZ, <$ty>::inner_iv_init(UfZ::new(), blk::<$ivbs>(&iv1)), |m| { m.$call(&mut d1); });
+            let img2 = drop_image!($ty, SZ, <$ty>::inner_iv_init(UfZ::new(), blk::<$ivbs>(&iv2)), |m| { m.$call(&mut d2); });
+            let mut nz = 0usize;
+            let mut i = 0;
+            while i < SZ {
+                assert!(img1[i] == img2[i], "memory after drop depends on IV / data");
+                if img1[i] != 0 {
+                    nz += 1;
+                }
+                i += 1;
+            }
+            assert!(nz <= 1, "more than the byte cursor left in memory after drop"); // pos = n mod b < 256
+            kani::cover!(true);
+        }
+    };
+}
+
+type Z2 = UfZ<U2, U1>;
+type Z4 = UfZ<U4, U1>;
+type Z8 = UfZ<U8, U1>;
+type Z16 = UfZ<U16, U1>;
+type E2 = UfE<U2, U1>;
+type F2 = Uf<U2, U1>;
+
+// ---- quick -----------------------------------------------------------------------------------
+debug_block!(dbg_cbc_enc, 210, cbc::Encryptor<F2>, enc, U2, 2, U2, 2);
+debug_block!(dbg_cbc_dec, 210, cbc::Decryptor<F2>, dec, U2, 2, U2, 2);
+debug_block!(dbg_pcbc_enc, 210, pcbc::Encryptor<F2>, enc, U2, 2, U2, 2);
+debug_block!(dbg_pcbc_dec, 210, pcbc::Decryptor<F2>, dec, U2, 2, U2, 2);
+debug_block!(dbg_ige_enc, 210, ige::Encryptor<F2>, enc, U4, 4, U2, 2);
+debug_block!(dbg_ige_dec, 210, ige::Decryptor<F2>, dec, U4, 4, U2, 2);
+debug_block!(dbg_cfb_enc, 210, cfb_mode::Encryptor<E2>, enc, U2, 2, U2, 2);
+debug_block!(dbg_cfb_dec, 210, cfb_mode::Decryptor<E2>, dec, U2, 2, U2, 2);
+debug_block!(dbg_cfb8_enc, 210, cfb8::Encryptor<E2>, enc, U2, 2, U1, 1);
+debug_block!(dbg_cfb8_dec, 210, cfb8::Decryptor<E2>, dec, U2, 2, U1, 1);
+debug_block!(dbg_ofb_core, 210, ofb::OfbCore<E2>, enc, U2, 2, U2, 2);
+debug_bytes!(dbg_cfb_bufenc, 210, cfb_mode::BufEncryptor<E2>, encrypt, U2, 2, 1, 3);
+debug_bytes!(dbg_cfb_bufdec, 210, cfb_mode::BufDecryptor<E2>, decrypt, U2, 2, 1, 3);
+debug_core!(dbg_ctr32be_core, 210, ctr::CtrCore<UfE<U4, U1>, ctr::flavors::Ctr32BE>, u32, U4, 4);
+debug_core!(dbg_ctr32le_core, 210, ctr::CtrCore<UfE<U4, U1>, ctr::flavors::Ctr32LE>, u32, U4, 4);
+debug_core!(dbg_ctr64be_core, 210, ctr::CtrCore<UfE<U8, U1>, ctr::flavors::Ctr64BE>, u64, U8, 8);
+debug_core!(dbg_ctr64le_core, 210, ctr::CtrCore<UfE<U8, U1>, ctr::flavors::Ctr64LE>, u64, U8, 8);
+debug_core!(dbg_ctr128be_core, 210, ctr::CtrCore<UfE<U16, U1>, ctr::flavors::Ctr128BE>, u128, U16, 16);
+debug_core!(dbg_ctr128le_core, 210, ctr::CtrCore<UfE<U16, U1>, ctr::flavors::Ctr128LE>, u128, U16, 16);
+debug_core!(dbg_belt_core, 210, belt_ctr::BeltCtrCore<UfE<U16, U1>>, u128, U16, 16);
+algname_case!(alg_cbc_enc, 210, cbc::Encryptor<F2>, "cbc::Encryptor<Uf>");
+algname_case!(alg_ctr64le, 210, ctr::CtrCore<UfE<U8, U1>, ctr::flavors::Ctr64LE>, "Ctr64LE<Uf>");
+algname_case!(alg_belt, 210, belt_ctr::BeltCtrCore<UfE<U16, U1>>, "BeltCtr<Uf>");
+// known finding: Debug of the byte-level aliases prints the unused keystream bytes of the current block
+debug_bytes!(kf_debug_alias_ctr32be, 210, ctr::Ctr32BE<UfE<U4, U1>>, apply_keystream, U4, 4, 1, 1);
+debug_bytes!(kf_debug_alias_ofb, 210, ofb::Ofb<UfE<U4, U1>>, apply_keystream, U4, 4, 1, 1);
+debug_bytes!(kf_debug_alias_belt, 210, belt_ctr::BeltCtr<UfE<U16, U1>>, apply_keystream, U16, 16, 1, 1);
+
+drop_block!(drop_cbc_enc, 48, cbc::Encryptor<Z4>, enc, U4, 4, U4, 4, 4);
+drop_block!(drop_cbc_dec, 48, cbc::Decryptor<Z4>, dec, U4, 4, U4, 4, 4);
+drop_block!(drop_pcbc_enc, 48, pcbc::Encryptor<Z4>, enc, U4, 4, U4, 4, 4);
+drop_block!(drop_pcbc_dec, 48, pcbc::Decryptor<Z4>, dec, U4, 4, U4, 4, 4);
+drop_block!(drop_ige_enc, 48, ige::Encryptor<Z4>, enc, U8, 8, U4, 4, 8);
+drop_block!(drop_ige_dec, 48, ige::Decryptor<Z4>, dec, U8, 8, U4, 4, 8);
+drop_block!(drop_cfb_enc, 48, cfb_mode::Encryptor<Z4>, enc, U4, 4, U4, 4, 4);
+drop_block!(drop_cfb_dec, 48, cfb_mode::Decryptor<Z4>, dec, U4, 4, U4, 4, 4);
+drop_block!(drop_cfb8_enc, 48, cfb8::Encryptor<Z4>, enc, U4, 4, U1, 1, 4);
+drop_block!(drop_cfb8_dec, 48, cfb8::Decryptor<Z4>, dec, U4, 4, U1, 1, 4);
+drop_block!(drop_ofb_core, 48, ofb::OfbCore<Z4>, enc, U4, 4, U4, 4, 4);
+drop_buf!(drop_cfb_bufenc, 48, cfb_mode::BufEncryptor<Z8>, encrypt, U8, 8, 11);
+drop_buf!(drop_cfb_bufdec, 48, cfb_mode::BufDecryptor<Z8>, decrypt, U8, 8, 11);
+drop_core!(drop_ctr32be_core, 48, ctr::CtrCore<Z8, ctr::flavors::Ctr32BE>, u32, U8, 8, 12);
+drop_core!(drop_ctr32le_core, 48, ctr::CtrCore<Z8, ctr::flavors::Ctr32LE>, u32, U8, 8, 12);
+drop_core!(drop_ctr64be_core, 64, ctr::CtrCore<Z16, ctr::flavors::Ctr64BE>, u64, U16, 16, 24);
+drop_core!(drop_ctr64le_core, 64, ctr::CtrCore<Z16, ctr::flavors::Ctr64LE>, u64, U16, 16, 24);
+drop_core!(drop_ctr128be_core, 64, ctr::CtrCore<Z16, ctr::flavors::Ctr128BE>, u128, U16, 16, 32);
+drop_core!(drop_ctr128le_core, 64, ctr::CtrCore<Z16, ctr::flavors::Ctr128LE>, u128, U16, 16, 32);
+drop_core!(drop_belt_core, 64, belt_ctr::BeltCtrCore<Z16>, u128, U16, 16, 32);
+drop_wrapper!(drop_ctr32be_alias, 48, ctr::CtrCore<Z8, ctr::flavors::Ctr32BE>, U8, 8, 3, 20);
+drop_wrapper!(drop_ctr64le_alias, 64, ctr::CtrCore<Z16, ctr::flavors::Ctr64LE>, U16, 16, 17, 40);
+drop_wrapper!(drop_ctr128be_alias, 64, ctr::CtrCore<Z16, ctr::flavors::Ctr128BE>, U16, 16, 5, 48);
+drop_wrapper!(drop_ofb_alias, 48, ofb::OfbCore<Z4>, U4, 4, 5, 8);
+drop_wrapper!(drop_belt_alias, 64, belt_ctr::BeltCtrCore<Z16>, U16, 16, 5, 48);
+
+// ---- thorough --------------------------------------------------------------------------------
+debug_bytes!(kf_t_debug_alias_ctr64le, 210, ctr::Ctr64LE<UfE<U8, U1>>, apply_keystream, U8, 8, 3, 9);
+debug_bytes!(kf_t_debug_alias_ctr128be, 210, ctr::Ctr128BE<UfE<U16, U1>>, apply_keystream, U16, 16, 3, 9);
+drop_wrapper!(t_drop_ctr32le_alias, 48, ctr::CtrCore<Z8, ctr::flavors::Ctr32LE>, U8, 8, 9, 20);
+drop_wrapper!(t_drop_ctr64be_alias, 64, ctr::CtrCore<Z16, ctr::flavors::Ctr64BE>, U16, 16, 1, 40);
+drop_wrapper!(t_drop_ctr128le_alias, 64, ctr::CtrCore<Z16, ctr::flavors::Ctr128LE>, U16, 16, 33, 48);
+drop_block!(t_drop_cbc_enc_b16, 64, cbc::Encryptor<Z16>, enc, U16, 16, U16, 16, 16);
+drop_block!(t_drop_ige_dec_b8, 64, ige::Decryptor<Z8>, dec, U16, 16, U8, 8, 16);
+drop_block!(t_drop_cfb_dec_b16, 64, cfb_mode::Decryptor<Z16>, dec, U16, 16, U16, 16, 16);
